@@ -118,6 +118,8 @@ class Settings:
         return value
 
     def getstr(self, name):
+        if name not in self.todict():
+            raise AttributeError(name)
         value = getattr(self, name)
         if isinstance(value, str):
             return repr(value)
@@ -126,6 +128,8 @@ class Settings:
         return str(value)
 
     def setstr(self, name, value):
+        if name not in self.todict():
+            raise AttributeError(name)
         vtype = type(getattr(self, name))
         parse = getattr(self, f'_parse_{name}', getattr(self, f'_parse_{vtype.__name__}', vtype))
         setattr(self, name, parse(value))
